@@ -78,6 +78,10 @@ def r2_refinement(ctx, A):
             ctx.violation("C03.R2", "C03.R2|continue-after-parse-error",
                           "loop continues after an integer failed to parse (must ignore the header)", where=where(info["fromstr"][-1]))
             continue
+        if form is None:
+            ctx.violation("C03.R2", "C03.R2|unrecognised|form", "UNRECOGNISED range-spec form: numbers parsed as %s without a first-byte-pos or suffix-length" % sorted(nums),
+                          where=where(nums[next(iter(nums))]["ev"]))
+            continue
         cases = RP.spec_cases(form, nums, L)
         lastev = nums[next(iter(nums))]["ev"]
         # structural completeness of the form: nothing unparsed around the hyphen
